@@ -130,10 +130,10 @@ func init() {
 		ID: "C02", Level: "exploration", Race: true,
 		Rule: "three workloads on the -race build: (a) seeded random buildable sets with a scope-tree/resolution history (sequential): per (scoped registration, scope) at most one successful construction, one instance for every observation inside the scope (direct, keyed, group, injected), no instance observed in two scopes, initializers exactly once per scope creation; " +
 			"(b) the cache-miss window: k goroutines resolve one scoped identity (directly, through a dependent, through a group) on one scope behind a barrier while the constructor yields, 200/5000 rounds; (c) the deterministic schedule 'G1 parked inside the constructor, G2 resolves the same identity, G1 resumes'. " +
-			"The per-(scope,identity) histories of (b) are also checked with porcupine against a set-once register. Non-trivial: >=1 scoped registration observed >=2 times in one scope; distinct = spec/workload hash.",
+			"(d) initializers registered under a name: resolved by key and as a dependency of a scoped service, sequentially and from 2-8 goroutines, in the root scope, two scopes and a child scope - still exactly one run per scope. The per-(scope,identity) histories of (b) are also checked with porcupine against a set-once register. Non-trivial: >=1 scoped registration observed >=2 times in one scope; distinct = spec/workload hash.",
 		Shards:        func(tier string) int { return 16 },
 		Run:           runC02,
-		NeedEvents:    []string{"scoped_observations", "window_rounds", "parked_schedules", "porcupine_histories"},
+		NeedEvents:    []string{"scoped_observations", "window_rounds", "parked_schedules", "porcupine_histories", "named_initializer_cases"},
 		ShardTimeoutS: func(tier string) int { return 900 },
 		Assumptions:   []string{"a failed construction yields no instance and may be retried (only successful constructions are counted)", "instance values registered as scoped are excluded from the never-shared clause"},
 	})
@@ -437,4 +437,6 @@ func runC02(c *eng.Ctx) {
 		}
 		finish(idx, r, "parked:"+f.name, map[string]any{"kind": "parked-constructor", "fixture": f.name, "variant": k})
 	}
+	// (d) initializers registered under a name (addressable by key / usable as a dependency)
+	runC02NamedInitializers(c, next)
 }
